@@ -8,7 +8,7 @@
    [run (init c t0) ops] is the list of their results, [final (init c t0) ops] the
    state afterwards; [capacity s now] is the code's maxFlight() evaluated at [now]. *)
 From Coq Require Import List ZArith QArith Bool.
-From GZ Require Import Lib.RollingWindow Lib.RollingWindowSpec C02.Model C02.Conc C02.Proofs C02.ProofsHist C02.ProofsConc C02.ProofsConcHot C02.ProofsConcSat C02.Wrap C02.ProofsWrap C02.Check C02.ProofsRef.
+From GZ Require Import Lib.RollingWindow Lib.RollingWindowSpec C02.Model C02.Conc C02.Proofs C02.ProofsHist C02.ProofsConc C02.ProofsConcHot C02.ProofsConcSat C02.ProofsConcAvg C02.Wrap C02.ProofsWrap C02.Check C02.ProofsRef.
 Import ListNotations.
 Open Scope Z_scope.
 
@@ -288,6 +288,19 @@ Theorem flying_counts_open_requests : forall c t0 ops,
   0 <= flying (final (init c t0) ops).
 Proof. exact open_requests_core. Qed.
 
+(*    Concurrent resolutions: for every set of concurrent calls and every schedule, the moving average is the fold
+      of the samples of the Pass / Fail threads in the order in which they performed their sampling action (= got
+      the spin lock) - [sample_log] -, each sample being the value the thread's own atomic decrement returned, and
+      there is exactly one sample per resolution that is past that action: no completion is ever lost, however
+      many other threads are on avgFlying in between (Pinned.try_lock_drops_samples_refuted is the TryLock
+      variant).  Applied to the prefix of a schedule that ends where an Allow thread reads the average, this is the
+      [tavg] of Props.shed_when_saturated_interleaved. *)
+Theorem every_resolution_contributes_one_sample : forall c t0 calls sched,
+  let m := crun (start c t0 calls) sched in
+  avgFlying (fst m) = fold_left next_avg (sample_log (start c t0 calls) sched) 0%Q /\
+  Z.of_nat (length (sample_log (start c t0 calls) sched)) = countb has_sampled (snd m).
+Proof. exact one_sample_per_resolution_core. Qed.
+
 (* 10. windowScale, as a formula in the configuration: (buckets per second) / (milliseconds per second)
       = 10^6 / bucket duration in ns, in exact rationals - for every bucket duration, whether or not it
       divides one second (Pinned.truncated_window_scale_sheds_below_ten_percent_refuted is the
@@ -333,6 +346,7 @@ Print Assumptions avg_flying_is_moving_average.
 Print Assumptions shed_when_saturated_in_history.
 Print Assumptions shed_only_if_hot_and_loaded_in_history.
 Print Assumptions flying_counts_open_requests.
+Print Assumptions every_resolution_contributes_one_sample.
 Print Assumptions window_scale_is_buckets_per_second_over_1000.
 Print Assumptions reference_peak_and_latency_are_the_windows.
 Print Assumptions reference_capacity_is_capacity.
@@ -484,3 +498,11 @@ Example ex_open_requests :
   let ops := [OAllow B 0 0; OAllow B 0 0; OAllow (B + 1) 0 0; OFail 1; OPass 0 (B + 5 * ms)] in
   NoDup (res_ids ops) /\ flying (final (init cfg1 B) ops) = 1.
 Proof. split; [|reflexivity]. repeat (constructor; [cbn; intuition discriminate|]). constructor. Qed.
+
+(* three resolutions sampling in the order 2, 0, 1 (thread 5 gets the lock first): the log shows that order *)
+Example ex_sample_order :
+  let calls := [CAllow B 0 0; CAllow B 0 0; CAllow B 0 0; CFail 0; CFail 1; CFail 2] in
+  let sched := (repeat 0 10 ++ repeat 1 10 ++ repeat 2 10 ++ [3; 4; 5; 5; 3; 4])%nat in
+  sample_log (start cfg1 B calls) sched = [0; 2; 1] /\
+  countb has_sampled (snd (crun (start cfg1 B calls) sched)) = 3.
+Proof. vm_compute. split; reflexivity. Qed.
